@@ -1275,6 +1275,13 @@ class KafkaClient(object):
         if not payloads:
             raise ValueError("Payloads parameter is empty")
 
+        # Responses are matched to payloads by (topic, partition), and a request
+        # carries one entry per partition: refuse a repeated key before anything
+        # is sent, rather than when the request for its broker is encoded (by
+        # which time requests to other brokers have been written).
+        if len(set((p.topic, p.partition) for p in payloads)) != len(payloads):
+            raise ValueError("more than one payload for the same topic and partition")
+
         # Group the requests by topic+partition
         original_keys = []
         payloads_by_broker = collections.defaultdict(list)
